@@ -104,3 +104,34 @@ func VerifGenFormatAlias() {
 	err = json.Unmarshal([]byte(`"2021-03-14"`), &day2)
 	vAssert(err == nil && time.Time(day2).Equal(time.Date(2021, 3, 14, 0, 0, 0, 0, time.UTC)), "a date alias does not decode a date")
 }
+
+func init() { vRegister("VerifGenInlineNestedAllOf", VerifGenInlineNestedAllOf) }
+
+// a property composed in place of an allOf that itself holds an allOf: the generator invents a
+// named struct (with its own MarshalJSON / UnmarshalJSON) for the inner composition and embeds it
+// in an anonymous struct next to the outer member's fields; every member must survive encoding
+func VerifGenInlineNestedAllOf() {
+	a := vBytes("a", 2)
+	vAssume(vAlnum(a))
+	n := Nest{}
+	n.Multi.A = a
+	n.Multi.B = []int32{0, 5}[vChoice("b", 2)]
+	n.Multi.C = vBool("c")
+	txt, err := json.Marshal(n)
+	vAssert(err == nil, "a nested composition cannot be encoded")
+	if err != nil {
+		return
+	}
+	var back Nest
+	err = json.Unmarshal(txt, &back)
+	vCover("nested-allof")
+	vAssert(err == nil, "a nested composition cannot decode what it encoded")
+	if err != nil {
+		return
+	}
+	vAssert(back.Multi.A == a && back.Multi.B == n.Multi.B, "a member of the inner composition is not restored")
+	if vKnown("C05-G15", n.Multi.C && !back.Multi.C) {
+		return
+	}
+	vAssert(back.Multi.C == n.Multi.C, "a member declared next to an inner composition is lost on encoding")
+}
